@@ -490,6 +490,8 @@ def dispatch(ctx, case):
         return intarr_pow_fails(case, ctx)
     if case.get('op') == 'intbase-pow':
         return intbase_pow_fails(case)
+    if case.get('op') == 'one-element-const':
+        return one_element_const_fails(case)
     if case.get('op') == 'bigexp-pow':
         return bigexp_pow_fails(ctx, case)
     if case.get('form') == 'inplace-view':
@@ -517,6 +519,7 @@ def run(ctx):
     systematic_pow_dtypes(ctx)
     systematic_intbase_pow(ctx)
     systematic_bigexp_pow(ctx)
+    systematic_one_element_const(ctx)
     for i in range(n):
         case = gen_pow(ctx.rng, ctx.tier) if i % 6 == 5 else gen_case(ctx.rng, ctx.tier)
         ctx.evaluations += 1
@@ -790,6 +793,41 @@ def systematic_bigexp_pow(ctx):
         res = bigexp_pow_fails(ctx, case)
         if res is not None:
             ctx.report(case, 'failure', res)
+
+
+def one_element_const_fails(case):
+    """a constant ndarray with exactly ONE element but rank >= 1 on either side of every operator: the result has NumPy's broadcast
+    shape (the one-element axes count), with the coefficients of the same operation on the lifted constant"""
+    x = np.array(case['x'])
+    c = np.array(case['c'])
+    f = OPS[case['opn']]
+    lift = np.zeros((x.shape[0], x.shape[1]) + c.shape)
+    lift[0] = c
+    for side in ('cx', 'xc'):
+        try:
+            with np.errstate(all='ignore'):
+                got = (f(c, UTPM(x.copy())) if side == 'cx' else f(UTPM(x.copy()), c)).data
+                want = (f(UTPM(lift.copy()), UTPM(x.copy())) if side == 'cx' else f(UTPM(x.copy()), UTPM(lift.copy()))).data
+        except Exception as ex:
+            return 'one-element-const-exception-%s: %s' % (case['opn'], type(ex).__name__ + ':' + str(ex)[:60])
+        if got.shape != want.shape or not close(got, want, 1e-12):
+            return 'one-element-const-%s: %s with a constant of shape %s and a polynomial of shape %s gives coefficient shape %s, expected %s' % (
+                case['opn'], 'c op x' if side == 'cx' else 'x op c', c.shape, x.shape[2:], got.shape[2:], want.shape[2:])
+    return None
+
+
+def systematic_one_element_const(ctx):
+    for opn in ('add', 'sub', 'mul', 'div'):
+        for cshape, xshape in (((1, 1), (3,)), ((1,), ()), ((1, 1, 1), (2, 2))):
+            D, P = ctx.rng.randint(1, 3), ctx.rng.randint(1, 2)
+            x = rand_coeffs(ctx.rng, (D, P) + xshape, -2, 2)
+            x[0] = c01.gen_x0(ctx.rng, 'nz', (P,) + xshape, False)
+            case = {'op': 'one-element-const', 'opn': opn, 'D': D, 'P': P, 'x': x, 'c': np.full(cshape, 2.5)}
+            ctx.evaluations += 1
+            ctx.count('one-element-constant')
+            res = one_element_const_fails(case)
+            if res is not None:
+                ctx.report(case, 'failure', res)
 
 
 def systematic_intbase_pow(ctx):
